@@ -65,15 +65,20 @@ package command
 // nextTXID: the id the next transaction will get; nothing is consumed (a dry run reports it)
 //@ func (*command.Commander).nextTXID
 //@   requires commander != nil && commander.lastTXID != nil
-//@   ensures ret != nil && val(ret) == val(commander.lastTXID) + 1 && commander.lastTXID == old(commander.lastTXID) // C05 C14
+//@   ensures ret != nil && val(ret) == val(commander.lastTXID) + 1 && commander.lastTXID == old(commander.lastTXID) // C05 C14 C13
 //@   modifies nothing
-//@   property C05 C14
+//@   property C05 C14 C13
 
 // ---- appending a log: dry run touches nothing; otherwise the log is chained, enqueued once, and the
 // returned channel acknowledges exactly that log
 //@ func (*command.executionContext).AppendLog
 //@   inline
 //@   requires log != nil && log.IdempotencyKey == e.parameters.IdempotencyKey        // C07: every kind of write carries the key of its request
+// C11: a transaction with a reference is only appended once the store said that no transaction carries it
+//@   requires in Commander).exec: tx != nil && (tx.Reference != "" ==> refFree[tx.Reference]) // C11
+// C14 C07: a request that carries a key computes its own answer only after the store said that nothing is recorded under
+// the key, in preview mode as well (a preview answers what the real write would answer: the recorded outcome)
+//@   requires e.parameters.IdempotencyKey != "" ==> ikFree[e.parameters.IdempotencyKey] // C14 C07
 //@   update logOf = put(logOf, ret1, ret0)
 //@   update ackable = ite(e.parameters.DryRun, ackable, add(ackable, ret1))
 //@   update curLogFresh = true
@@ -81,7 +86,7 @@ package command
 //@   inline
 //@   update curLog = ite(err == nil, ret0, curLog)
 // a request starts with nothing reserved and no lock
-//@ def idle() = !lockTaken && !curLogFresh && (forall k0 string :: !taken[k0]) && (forall c1 ref :: !ackable[c1])
+//@ def idle() = !lockTaken && !curLogFresh && (forall k0 string :: !taken[k0]) && (forall c1 ref :: !ackable[c1]) && (forall k2 string :: !refFree[k2] && !ikFree[k2])
 // type invariant of the commander: the head of the chain has an id
 //@ def headOK(c) = c.lastLog != nil ==> c.lastLog.ID != nil
 
